@@ -135,6 +135,11 @@ def vdot(u, v):
     return r
 
 
+def norm_atoms(v):
+    """canonical, order-independent text of a Vec (used to name vector values stored into scalar slots)"""
+    return tuple(sorted((atom_str(a), sp.sstr(sp.expand(c))) for a, c in v.t.items() if not is_zero(c)))
+
+
 class Comp:
     """Component j of vectors: linear (Vec) or quadratic ({(a,b):coeff}) form in component values."""
     __slots__ = ("lin", "quad", "const")
@@ -493,6 +498,17 @@ class Interp:
                 return Comp(lin=x)
             if k == "structelem":
                 return v.cont.read(v.key)
+            if k == "scalrange":
+                # a run of scalar slots read as one vector-valued quantity: DIM slots are a vector atom, any other length
+                # an opaque scalar-indexed value seg(container, start, count)
+                self.range_count = v.count
+                try:
+                    self.log_event("read", v.cont, (sp.expand(v.start + RSYM),))
+                finally:
+                    self.range_count = None
+                if self.dim() and is_zero(v.count - self.dim()):
+                    return Vec.atom((v.cont.tag() + "@", sp.expand(v.start)))
+                return sp.Function("seg")(S(v.cont.tag()), sp.expand(v.start), sp.expand(v.count))
             raise Unsupported("load of ref kind " + k)
         return v
 
@@ -967,6 +983,16 @@ class Interp:
         finally:
             self.depth -= 1
             self.this_obj = saved_this
+        # scalars captured by reference and assigned inside the callable keep their new value in the enclosing scope
+        pids = {p["id"] for p in spec["params"]}
+        byref_all = lam.get("default") == "ref"
+        byref = {c_.get("id") for c_ in lam.get("captures", []) if c_.get("mode") == "ref"}
+        bycopy = {c_.get("id") for c_ in lam.get("captures", []) if c_.get("mode") == "copy"}
+        for k_, v_ in env2.items():
+            if k_ in pids or k_ not in cap_env or k_ in bycopy:
+                continue
+            if (byref_all or k_ in byref) and cap_env[k_] is not v_ and not isinstance(cap_env[k_], Ref):
+                cap_env[k_] = v_
         return r
 
     def run_body(self, f, env):
@@ -1157,6 +1183,16 @@ class Interp:
         if isinstance(obj, Ref) and obj.kind in ("var", "field"):
             v = self.load(obj)
         tints = [t for t in (targs or []) if isinstance(t, int)]
+        if isinstance(v, Container) and v.kind == "scal" and nm in ("segment", "head", "tail"):
+            if nm == "segment":
+                start, cnt = args[0], (tints[0] if tints else args[1])
+            elif nm == "head":
+                start, cnt = Integer(0), (tints[0] if tints else args[0])
+            else:
+                cnt = tints[0] if tints else args[0]
+                n_ = v.size if v.size is not None else S(v.name + ".size", integer=True)
+                start = n_ - cnt
+            return Ref("scalrange", cont=v, start=sp.sympify(start), count=sp.sympify(cnt))
         if isinstance(v, Container) and v.kind == "rows":
             if nm == "middleRows":
                 start = args[0]
@@ -1442,6 +1478,26 @@ class Interp:
             finally:
                 self.range_count = None
             self.effects_ranges.append((r.cont.name, r.start, r.count, v.vec, node.get("line") if isinstance(node, dict) else None))
+            return
+        if k == "scalrange":
+            if isinstance(v, BlockVec) and v.r == 1:
+                v = v.rows[0]
+            if isinstance(v, Vec):
+                val = sp.Function("comp")(S(repr(norm_atoms(v))), RSYM)
+                if self.dim() and not is_zero(r.count - self.dim()):
+                    raise Unsupported("vector stored into %s scalar slots" % r.count)
+            elif isinstance(v, sp.Basic):
+                val = sp.Function("elem")(v, RSYM)
+            else:
+                raise Unsupported("scalar range assigned from %s" % type(v).__name__)
+            key = (sp.expand(r.start + RSYM),)
+            r.cont.write(key, val)
+            self.range_count = r.count
+            try:
+                self.record(r.cont.name, key, accumulate or "=", val, node)
+            finally:
+                self.range_count = None
+            self.effects_ranges.append((r.cont.name, r.start, r.count, v, node.get("line") if isinstance(node, dict) else None))
             return
         if k == "elem":
             r.cont.write(tuple(r.key), sp.sympify(v))
@@ -1852,7 +1908,50 @@ class Interp:
                 raise Unsupported("scalar modified inside a component loop without component data")
 
     def s_rfor(self, s, env):
-        raise Unsupported("range-for in algebraic code (line %s)" % s.get("line"))
+        """for (auto& x : container): summarised like an index loop over the element index e in [0, size)."""
+        rng = self.evl(s["range"], env)
+        cont = self.load(rng) if isinstance(rng, Ref) and rng.kind in ("var", "field") else rng
+        if not isinstance(cont, Container) or cont.kind not in ("struct", "scal"):
+            raise Unsupported("range-for over %s (line %s)" % (type(cont).__name__, s.get("line")))
+        var = s["var"]
+        name = "e_" + var.get("name", "elem")
+        sym_ = S(name if not self.loop_stack else name + "_%d" % len(self.loop_stack), integer=True, nonnegative=True)
+        hi = cont.size if cont.size is not None else S(cont.name + ".size", integer=True, nonnegative=True)
+        summ = LoopSummary(sym_, Integer(0), None, 1, s.get("line"))
+        summ.hi, summ.cond_op, summ.is_comp, summ.name, summ.over = hi, "<", False, name, cont.name
+        frame = {"summary": summ, "comp_var": None, "var": sym_}
+        for c_ in self.all_containers(env):
+            if c_.store:
+                c_.history.append((c_.gen, list(c_.store)))
+                c_.bump()
+        env[var["id"]] = Ref("structelem", cont=cont, key=(sym_,)) if cont.kind == "struct" else Ref("elem", cont=cont, key=(sym_,))
+        self.decl_depth[var["id"]] = len(self.loop_stack) + 1
+        self.loop_stack.append(frame)
+        saved_guards = list(self.guards)
+        saved_iter = self.iter_guards
+        self.iter_guards = []
+        tnode = None
+        if self.tracing:
+            tnode = {"type": "loop", "line": s.get("line"), "var": sym_, "lo": Integer(0), "hi": hi, "op": "<", "step": 1, "items": []}
+            self.trace_stack[-1].append(tnode)
+            self.trace_stack.append(tnode["items"])
+        try:
+            try:
+                self.exec(s["body"], env)
+            except _Continue:
+                pass
+        finally:
+            self.loop_stack.pop()
+            self.guards = saved_guards
+            self.iter_guards = saved_iter
+            if tnode is not None:
+                self.trace_stack.pop()
+        if self.loop_stack:
+            self.loop_stack[-1]["summary"].inner.append(summ)
+        else:
+            self.loops.append(summ)
+        for eff in summ.effects:
+            self.havoc_after_loop(eff, env, summ)
 
 
 class _HeapStruct:
